@@ -704,6 +704,8 @@ class CallsMixin:
             lo_t, hi_t = (-(1 << (wt - 1)), (1 << (wt - 1)) - 1) if st_ else (0, (1 << wt) - 1)
             if wf and lo_f >= lo_t and hi_f <= hi_t:
                 return v
+            if self.fits(st, v, wt, st_):
+                return v            # the value is in range of the target type on this path: no wrap-around term
             if st_:
                 return (v + (1 << (wt - 1))) % (1 << wt) - (1 << (wt - 1))
             return v % (1 << wt)
